@@ -266,9 +266,21 @@ func (o *Obligation) SMT(withModel bool) string {
 	if !o.Cover {
 		fmt.Fprintf(&sb, "(assert (not %s)) ; goal %s\n", o.Goal, o.Name)
 	}
-	if out := sb.String(); strings.Contains(out[shlPos:], "(shl ") {
-		pre := "(declare-fun shl ((Array Int Int) Int) (Array Int Int))\n" +
-			"(assert (forall ((a (Array Int Int)) (o Int) (k Int)) (! (= (select (shl a o) k) (select a (+ o k))) :pattern ((select (shl a o) k)))))\n"
+	if out := sb.String(); strings.Contains(out[shlPos:], "(shl ") || strings.Contains(out[shlPos:], "(consarr ") {
+		pre := ""
+		hasShl := strings.Contains(out[shlPos:], "(shl ")
+		hasCons := strings.Contains(out[shlPos:], "(consarr ")
+		if hasShl {
+			pre += "(declare-fun shl ((Array Int Int) Int) (Array Int Int))\n" +
+				"(assert (forall ((a (Array Int Int)) (o Int) (k Int)) (! (= (select (shl a o) k) (select a (+ o k))) :pattern ((select (shl a o) k)))))\n"
+		}
+		if hasCons {
+			pre += "(declare-fun consarr (Int (Array Int Int)) (Array Int Int))\n" +
+				"(assert (forall ((c Int) (a (Array Int Int)) (k Int)) (! (= (select (consarr c a) k) (ite (= k 0) c (select a (- k 1)))) :pattern ((select (consarr c a) k)))))\n"
+			if hasShl {
+				pre += "(assert (forall ((c Int) (a (Array Int Int)) (o Int)) (! (=> (>= o 1) (= (shl (consarr c a) o) (shl a (- o 1)))) :pattern ((shl (consarr c a) o)))))\n"
+			}
+		}
 		sb.Reset()
 		sb.WriteString(out[:shlPos] + pre + out[shlPos:])
 	}
